@@ -26,6 +26,8 @@ RULE = (
     ">=1 cell; distinct by (columns, row indexes, sparsity pattern, variant, bulk, level)."
     " One fixed table has indexes that bring the instance OIDs to 126/127/128 sub-identifiers"
     " and index components at the BER / 32-bit boundaries."
+    " One case in six answers request 1..3 of a fetch with tooBig/genErr/inconsistentValue: t"
+    "he fetch raises, never a table with cells missing."
 )
 ASSUMPTIONS = [
     "table() is addressed by the entry OID and bulktable() by the table OID, as their documentation and tests prescribe",
